@@ -152,15 +152,35 @@ class ReaderStream(Stream):
 
     def generate(self, rng):
         conv = rng.random() < 0.7
-        return {"conv": conv, "entries": gen_entries(rng, rng.choice([0, 1, 2, 4]), conv)}
+        case = {"conv": conv, "entries": gen_entries(rng, rng.choice([0, 1, 2, 4]), conv)}
+        if rng.random() < 0.25:
+            # the file named on the command line is a symbolic link to a file kept elsewhere (a shared requirements file,
+            # a Bazel runfiles tree): pip follows nested -r relative to the file *as named*
+            case["symlink"] = True
+        return case
 
     def _materialise(self, case):
         from rv.core import digest
         base = os.path.join(self.tmp, digest(case), "work", "proj")
-        files = files_of(case["entries"], os.path.join(base, "requirements.txt"), {})
+        top = os.path.join(base, "requirements.txt")
+        files = files_of(case["entries"], top, {})
         for p, lines in files.items():
             os.makedirs(os.path.dirname(p), exist_ok=True)
-            with open(p, "w", encoding="utf-8") as f:
+            target = p
+            if case.get("symlink") and p == top:
+                shared = os.path.join(os.path.dirname(base), "shared")
+                os.makedirs(shared, exist_ok=True)
+                target = os.path.join(shared, "requirements.txt")
+                os.symlink(os.path.join("..", "shared", "requirements.txt"), p)
+                # next to the real file: same-named includes that are *not* the ones meant
+                for e in case["entries"]:
+                    if e["k"] == "incl" and not os.path.isabs(e["rel"]):
+                        decoy = os.path.normpath(os.path.join(shared, e["rel"]))
+                        if decoy.startswith(os.path.dirname(base) + os.sep) and not decoy.startswith(base + os.sep):
+                            os.makedirs(os.path.dirname(decoy), exist_ok=True)
+                            with open(decoy, "w", encoding="utf-8") as f:
+                                f.write("decoy-req==9.9\n")
+            with open(target, "w", encoding="utf-8") as f:
                 f.write("\n".join(lines) + ("\n" if lines else ""))
         return base, files
 
@@ -212,6 +232,8 @@ class ReaderStream(Stream):
 
     def flags(self, case, r):
         fl = ["conventional" if case["conv"] else "unconventional"]
+        if case.get("symlink"):
+            fl.append("named-through-a-symlink")
 
         def walk(es, d):
             for e in es:
